@@ -23,6 +23,8 @@ import (
 	"runtime"
 	"strconv"
 	"sync"
+	"sync/atomic"
+	"time"
 
 	"k8s.io/klog/v2"
 )
@@ -123,6 +125,28 @@ func safeRun(e *Engine, line string) (obs string) {
 	return e.Run(line)
 }
 
+// runWithWatchdog gives one case a generous wall-clock limit: code under test that spins or blocks for ever (a changed loop
+// condition, a worker that never returns) must end as an observation, not as a check that hangs. The stuck goroutine is abandoned.
+func runWithWatchdog(e *Engine, line string) string {
+	if atomic.LoadInt32(&timeouts) >= 3 {
+		// stuck goroutines keep their cores busy: after three cases without an answer the rest is not attempted
+		return "harness-timeout:skipped-after-earlier-timeouts"
+	}
+	done := make(chan string, 1)
+	go func() { done <- safeRun(e, line) }()
+	select {
+	case obs := <-done:
+		return obs
+	case <-time.After(caseTimeLimit):
+		atomic.AddInt32(&timeouts, 1)
+		return "harness-timeout:no-answer-within-" + caseTimeLimit.String()
+	}
+}
+
+const caseTimeLimit = 90 * time.Second
+
+var timeouts int32
+
 func runAll(e *Engine, in io.Reader, emit func(string)) {
 	sc := bufio.NewScanner(in)
 	sc.Buffer(make([]byte, 1<<20), 1<<26)
@@ -146,7 +170,7 @@ func runAll(e *Engine, in io.Reader, emit func(string)) {
 		go func() {
 			defer wg.Done()
 			for i := range next {
-				res[i] = safeRun(e, lines[i])
+				res[i] = runWithWatchdog(e, lines[i])
 			}
 		}()
 	}
